@@ -95,7 +95,8 @@ instance : Inhabited Loc := ⟨{}⟩
 inductive Call
   | bpop (keys : List Key) (tmo : Int)      -- BLPop / BRPop (the end the element is taken from is not modelled)
   | push (k : Key) (n : Nat)                -- LPush / RPush / the destination side of RPopLPush
-  | env (k : Key) (cnt : Nat) (wrong : Bool) -- any other complete command on k (LPOP, DEL, SET ...): atomic under the key lock
+  | env (k : Key) (cnt : Nat) (wrong : Bool) -- any other complete command on k (LPOP, LPUSHX, LTRIM, DEL, SET ...): atomic under
+                                             -- the key lock; the new length of a non-empty list and the type are arbitrary
 deriving Repr, Inhabited
 
 /-- the scheduler's choices -/
@@ -122,7 +123,8 @@ def tstep (s : Shared) (t : Tid) (l : Loc) (ch : Choice) : Out :=
     | .push k n => if n = 0 then none else some (s, { pc := .p1, key := k, n := n }, none)
     | .env k cnt wrong =>
       if (s.locked k).isSome then none else
-      some ({ s with lists := upd s.lists k cnt, wrong := upd s.wrong k wrong }, l, none)
+      -- no command other than a push makes an empty (absent) list non-empty (see DESIGN_NOTES.md: RENAME onto a key)
+      some ({ s with lists := upd s.lists k (if s.lists k = 0 then 0 else cnt), wrong := upd s.wrong k wrong }, l, none)
   -- addBlockKeys: n.blockingKeysMutex.Lock()
   | .r1 =>
     if s.bmu.canLock then some ({ s with bmu := { s.bmu with writer := some t } }, { l with pc := .r2, i := 0 }, none)
